@@ -247,14 +247,24 @@ MANIFEST = {
     "technique": "Lean 4: strided-descriptor model of NumPy views with the view-or-copy reshape rule, executable model of "
                  "_in_place_op/DuplicatingGraph, theorems on descriptor views = logical gathers, identity/flag preservation by "
                  "mirroring and the base-target refinement; model/implementation correspondence after every statement; NumPy twin oracle",
-    "text": "NumPy's memory semantics (buffers, strided windows, basic indexing, transposes, view-or-copy reshape, broadcasting) and "
-            "MyGrad's in-place machinery are modelled executably in Lean and run against MyGrad after every statement of random "
-            "single-epoch histories (values, shape, memory-sharing matrix, .base, constant flag, creator). Proved for all shapes and "
-            "indices: a view descriptor selects exactly the logical gather of its index map, memory sharing is intersection of "
-            "position sets, mirroring keeps object identity and flag, and an in-place update on a base tensor refines the NumPy "
-            "buffer write. The direct oracle executes the same statements on plain ndarrays.",
-    "note": "Trusted: Lean kernel, standard axioms, the correspondence harness; NumPy's 'K'-order result layout is not modelled "
-            "(reshape generated only on tensors with known strides). The forest-level simulation theorem (views of views) is "
-            "validated by correspondence, proved only for the base-target case (named gap inplace_refines_numpy_forest). "
-            "`.shape =` followed by in-place updates is false of the unchanged code (known finding).",
+    "text": "NumPy's memory semantics (buffers, strided windows, basic indexing, transposes, view-or-copy "
+            "reshape, broadcasting) and MyGrad's view/in-place machinery (view detection and base assignment, "
+            "placeholders, DuplicatingGraph, copy of the base, view replay, guarded kernel call, ApplyMask, "
+            "UnView, mirroring, re-creation of views in placeholder-DFS order) are modelled executably in Lean "
+            "and run against MyGrad after every statement of random single-epoch histories (values, shapes, "
+            "memory-sharing matrix, .base, constant flag, creator). Proved for all heaps and arguments: mirroring "
+            "changes a public tensor's state and never its identity or any other tensor (mirror_keeps_identity); "
+            "a view op NumPy serves as a view yields a window into the parent's own buffer and allocates/writes "
+            "nothing (view_is_window_of_parent_buffer); every other forward result lives in a fresh buffer no "
+            "existing tensor can share (nonview_result_owns_fresh_memory); two windows share memory iff same "
+            "buffer and a common position (shares_iff_positions); the guarded kernel call of an in-place update "
+            "writes only the fresh copy of the base, never memory the placeholders still point at "
+            "(inplace_write_is_confined). The direct oracle executes the same statements on plain ndarrays.",
+    "note": "Trusted: Lean kernel, standard axioms, the correspondence harness; NumPy's 'K'-order result layout "
+            "is not modelled (reshape is generated only on tensors whose strides the model knows). The end-to-end "
+            "refinement 'heap after an in-place update = NumPy buffer write, for a whole view forest' is "
+            "validated by correspondence + NumPy twin on every run, not proved (named gap "
+            "inplace_refines_numpy_forest). `.shape =` followed by in-place updates is false of the unchanged "
+            "code (two known findings); advanced-index assignment whose value aliases the target is excluded "
+            "(NumPy's own result is order-dependent there).",
 }
